@@ -8,7 +8,7 @@ from specs.acks import *
 
 KEEP_PURGE = KEEP0 + ['g_firing', 'id', 'deferred', 'msgId', 'retries', 'qos', 'topic', 'retain', 'payload', 'encoded', 'dup',
                       'alarm', 'interval', 't_status', 't_fn', 't_arg', 't_owner', 't_delay', 'q_pos', 'initial', 'factor',
-                      'bandwith', 'maxDelay', '_value', '_k', 'd_owner', 'tr_out', 'tr_aborts', 'tr_closes']
+                      'bandwith', 'maxDelay', '_value', '_k', 'd_owner', 'tr_out', 'tr_aborts', 'tr_closes', '$dq', '$dqh', '$dqt']
 
 
 @spec
@@ -16,6 +16,13 @@ def conn_deferred_owned(self: Ref['mqtt.client.pubsubs.MQTTProtocol']) -> bool:
     """a connect() is in progress and its Deferred is owned by the CONNECT request (so it is none of the others)"""
     return (isa(self.connReq, 'mqtt.pdu.CONNECT') and isa(self.connReq.deferred, 'Deferred')
             and self.connReq.deferred.d_owner == self.connReq)
+
+
+@spec
+def fired_stay_fired() -> bool:
+    """a Deferred that had fired keeps its outcome (firing twice is an error, never done)"""
+    return forall(lambda d: implies(old(is_bool(obj_at(d).d_fired) and obj_at(d).d_fired),
+                                    unchanged(obj_at(d).d_fired, obj_at(d).d_ok, obj_at(d).d_val)))
 
 
 @spec
@@ -48,6 +55,8 @@ def _(self: Ref['mqtt.client.pubsubs.MQTTProtocol'], reason: Any):
     ensures(forall(lambda k: contains(U(self), k) == old(contains(U(self), k)) and U(self)[k] == old(U(self)[k])))
     # the Deferred of a connect() in progress is not one of those
     ensures(implies(old(conn_deferred_owned(self)), unchanged(self.connReq.deferred.d_fired)))
+    ensures(fired_stay_fired())
+    ensures(same_containers(self))
 
 
 @loop('mqtt.client.pubsubs.MQTTProtocol._purgeSession', 0)
@@ -70,6 +79,8 @@ def _():
     invariant(forall(lambda k: contains(U(self), k) == old(contains(U(self), k)) and U(self)[k] == old(U(self)[k])))
     invariant(implies(old(alarms_set(self)), alarms_set(self)))
     invariant(implies(old(conn_deferred_owned(self)), unchanged(self.connReq.deferred.d_fired)))
+    invariant(fired_stay_fired())
+    invariant(same_containers(self))
 
 
 @loop('mqtt.client.pubsubs.MQTTProtocol._purgeSession', 1)
@@ -96,6 +107,8 @@ def _():
     invariant(forall(lambda k: contains(U(self), k) == old(contains(U(self), k)) and U(self)[k] == old(U(self)[k])))
     invariant(implies(old(alarms_set(self)), alarms_set(self)))
     invariant(implies(old(conn_deferred_owned(self)), unchanged(self.connReq.deferred.d_fired)))
+    invariant(fired_stay_fired())
+    invariant(same_containers(self))
 
 
 # ---------------------------------------------------------------- resume of a persistent session
@@ -135,6 +148,7 @@ def _(self: Ref['mqtt.client.pubsubs.MQTTProtocol']):
                                      R(self)[k].alarm == old(R(self)[k].alarm) and R(self)[k].encoded == old(R(self)[k].encoded))))
     ensures(len(out(self)) >= len(old(out(self))))
     ensures(unchanged(self._pingReq.alarm))
+    ensures(same_containers(self))
     ensures(forall(lambda k: contains(S(self), k) == old(contains(S(self), k)) and S(self)[k] == old(S(self)[k])))
     ensures(forall(lambda k: contains(U(self), k) == old(contains(U(self), k)) and U(self)[k] == old(U(self)[k])))
     ensures(implies(old(forall(lambda k: implies(contains(S(self), k), not is_none(S(self)[k].alarm)))),
@@ -167,6 +181,7 @@ def _():
     invariant(forall(lambda k: implies(contains(U(self), k), U(self)[k].alarm == old(U(self)[k].alarm))))
     invariant(len(out(self)) >= len(old(out(self))))
     invariant(unchanged(self._pingReq.alarm))
+    invariant(same_containers(self))
     invariant(forall(lambda k: implies(contains(R(self), k) and pos_of(keys, k) < idx, not is_none(R(self)[k].alarm))))
     hint_exit(forall(lambda k: implies(contains(R(self), k), pos_of(keys, k) < idx)))
     hint_exit(forall(lambda k: implies(contains(R(self), k), not is_none(R(self)[k].alarm))))
@@ -198,6 +213,7 @@ def _():
     invariant(forall(lambda k: implies(contains(U(self), k), U(self)[k].alarm == old(U(self)[k].alarm))))
     invariant(len(out(self)) >= len(old(out(self))))
     invariant(unchanged(self._pingReq.alarm))
+    invariant(same_containers(self))
     invariant(forall(lambda k: implies(contains(R(self), k), not is_none(R(self)[k].alarm))))
     invariant(forall(lambda k: implies(contains(W(self), k) and pos_of(keys, k) < idx, not is_none(W(self)[k].alarm))))
     hint_exit(forall(lambda k: implies(contains(W(self), k), pos_of(keys, k) < idx)))
